@@ -267,6 +267,17 @@ let cmd_sparseops t =
   out_z (sparse_dot_product a b); out_sep ();
   out_z (fast_intersection_size (List.map fst a) (List.map fst b))
 
+(* binmetrics dim x[dim] y[dim] : all count-based metrics as num den pairs *)
+let cmd_binmetrics t =
+  let dim = next_int t in
+  let x = List.init dim (fun _ -> next_int t <> 0) in
+  let y = List.init dim (fun _ -> next_int t <> 0) in
+  let ((a, b), c) = counts x y in
+  let n = z_of_int dim in
+  let o (p, q) = out_z p; out_z q; out_str ";" in
+  o (m_hamming n b c); o (m_matching n b c); o (m_jaccard a b c); o (m_dice a b c); o (m_kulsinski n a b c);
+  o (m_rogerstanimoto n b c); o (m_sokalmichener n b c); o (m_russellrao n a b c); o (m_sokalsneath a b c); o (m_yule n a b c)
+
 (*DISPATCH-BEGIN*)
 let dispatch : (string * (toks -> unit)) list = [
   ("heapseq", cmd_heapseq);
@@ -289,6 +300,7 @@ let dispatch : (string * (toks -> unit)) list = [
   ("search", cmd_search);
   ("fmul", cmd_fmul);
   ("sparseops", cmd_sparseops);
+  ("binmetrics", cmd_binmetrics);
 ]
 (*DISPATCH-END*)
 
